@@ -5,12 +5,10 @@ import numpy as np
 
 def get_klass_args(klass):
     import inspect
-    args, varargs, varkw, defaults = inspect.getfullargspec(klass.__init__)[:4]
-    if defaults is None:
-        return []
-    keyword_args = args[-len(defaults):]
-
-    return keyword_args
+    # Every named constructor argument, also those without a default
+    # (e.g. ``array`` of ArrayPressureProfile)
+    args = inspect.getfullargspec(klass.__init__)[0]
+    return args[1:]
 
 
 def load_generic_profile_from_hdf5(loc, module, identifier, 
